@@ -150,8 +150,9 @@ class GEA:
         self.tracked = set(track)
         self._choose_tracked()
         self.deps = {}
+        self._mutator_bbs = {}
         for a in self.atoms:
-            self.deps[a] = atom_deps(a)
+            self.deps[a] = self.atom_deps(a)
         self.site_vals = defaultdict(set)
         self.edges = defaultdict(set)
         self.states = set()
@@ -176,7 +177,8 @@ class GEA:
                 if variants:
                     base = P.strip_ok_preserving(term[1])
                     atom = ("VARIANT", base)
-                    names = dict((d, norm_variant_name(n)) for d, n in variants)
+                    std = len(term) > 3 and term[3] in P.STD_SUM_TYPES
+                    names = dict((d, norm_variant_name(n) if std else n) for d, n in variants)
                     allv = frozenset(names.values())
                     arms = {}
                     listed = set()
@@ -223,6 +225,25 @@ class GEA:
         self.tracked |= need
         self.tracked &= (pv.phi_locals | {0})
 
+    def atom_deps(self, atom):
+        """Module-level atom_deps plus: a value handed out by `&mut` depends on its mutator calls."""
+        calls, phis = atom_deps(atom)
+        calls = set(calls)
+        for part in atom[1:]:
+            if not isinstance(part, tuple):
+                continue
+            items = [part] if part and isinstance(part[0], str) else list(part)
+            for it in items:
+                if not isinstance(it, tuple):
+                    continue
+                for x in P.walk(it):
+                    if x[0] == "mut":
+                        l = x[1]
+                        if l not in self._mutator_bbs:
+                            self._mutator_bbs[l] = set(bb for bb, _, _ in self.prov.mutators(l))
+                        calls |= self._mutator_bbs[l]
+        return calls, phis
+
     # ------------------------------------------------------------ exploration
     def _kill(self, val, call_bb=None, local=None):
         dead = []
@@ -231,7 +252,7 @@ class GEA:
                 continue
             d = self.deps.get(a)
             if d is None:
-                d = self.deps[a] = atom_deps(a)
+                d = self.deps[a] = self.atom_deps(a)
             if (call_bb is not None and call_bb in d[0]) or (local is not None and local in d[1]):
                 dead.append(a)
         for a in dead:
@@ -256,7 +277,9 @@ class GEA:
             return (h, term[1], term[2], self.resolve_phis(term[3], val))
         if h in ("field", "variant"):
             inner = self.resolve_phis(term[1], val)
-            return P.mk_field(inner, term[2]) if h == "field" else P.mk_variant(inner, term[2])
+            if h == "field":
+                return P.mk_field(inner, term[2])
+            return P.mk_variant(inner, term[2], "core::option::Option" if len(term) == 4 else None)
         if h == "call":
             return (h, term[1], term[2], tuple(self.resolve_phis(a, val) for a in term[3]))
         if h == "agg":
@@ -268,7 +291,7 @@ class GEA:
         if h == "cast":
             return (h, self.resolve_phis(term[1], val), term[2], term[3])
         if h == "discr":
-            return (h, self.resolve_phis(term[1], val), term[2])
+            return (h, self.resolve_phis(term[1], val)) + tuple(term[2:])
         return term
 
     def _switch_succ(self, bb, val):
